@@ -41,7 +41,7 @@ Section P.
 
   Lemma finv_step s s' : finv s -> fstep s s' -> finv s'.
   Proof.
-    intros [I1 I2] H. inversion H as [s0 i k v Hle|s0 i|s0 i x Hin]; subst; split; cbn [st snaps written].
+    intros [I1 I2] H. inversion H as [s0 i k v Hle|s0 i|s0 i x Hin|s0 i g Hg]; subst; split; cbn [st snaps written].
     - intros j k'. unfold upd_inst, upd. destruct (Nat.eq_dec i j) as [->|Hn].
       + destruct (K_eq_dec k k') as [->|Hk].
         * cbn. exists j. left; reflexivity.
@@ -49,9 +49,12 @@ Section P.
       + eapply from_written_mono; [|apply I1]. intros e He; right; exact He.
     - intros x k' Hx. eapply from_written_mono; [|apply I2, Hx]. intros e He; right; exact He.
     - exact I1.
-    - intros x k' [<-|Hx]; [apply I1|apply I2, Hx].
+    - intros x k' Hx. apply in_app_or in Hx. destruct Hx as [Hx|[<-|[]]]; [apply I2, Hx|apply I1].
     - intros j k'. unfold upd_inst. destruct (Nat.eq_dec i j) as [->|Hn]; [|apply I1].
       destruct (ojoin2_cases (st K s j k') (snd x k')) as [-> | ->]; [apply I1|apply I2, Hin].
+    - exact I2.
+    - intros j k'. unfold upd_inst. destruct (Nat.eq_dec i j) as [->|Hn]; [|apply I1].
+      unfold from_written. specialize (Hg k'). destruct (g k'); [exact Hg|exact I].
     - exact I2.
   Qed.
 
@@ -61,22 +64,22 @@ Section P.
   (* THE CONVERGENCE THEOREM: in every reachable quiescent state all instances hold, per key, the same version,
      and it is the last-writer-wins maximum of all versions ever written anywhere — any number of instances,
      any order of writes, uploads and merges, merges of stale snapshots included *)
-  Theorem convergence s :
-    freach finit s -> quiescent K s ->
-    forall i k,
+  Theorem convergence n s :
+    freach finit s -> quiescent K n s ->
+    forall i k, (i < n)%nat ->
       (forall v, written_k K s k v -> ole (Some v) (st K s i k)) /\        (* at least as new as every write *)
       from_written s (st K s i k) k /\                                      (* and itself one of the writes *)
-      (forall j, st K s i k = st K s j k).                                  (* hence identical everywhere *)
+      (forall j, (j < n)%nat -> st K s i k = st K s j k).                         (* hence identical everywhere *)
   Proof.
-    intros Hr Hq.
-    assert (Hmax : forall i k v, written_k K s k v -> ole (Some v) (st K s i k)).
-    { intros i k v (j & Hj). destruct (Hq i j) as (x & Hx & Hfx & Hcov & Hmerged).
+    intros Hr [Hw Hq].
+    assert (Hmax : forall i k v, (i < n)%nat -> written_k K s k v -> ole (Some v) (st K s i k)).
+    { intros i k v Hi (j & Hj). destruct (Hq i j Hi (Hw j k v Hj)) as (x & Hx & Hfx & Hcov & Hmerged).
       eapply ole_trans; [apply (Hcov k v Hj)|apply Hmerged]. }
     destruct (finv_reach s Hr) as [I1 _].
-    intros i k. split; [apply Hmax|]. split; [apply I1|].
-    intros j. apply ole_antisym.
-    - specialize (I1 i k). destruct (st K s i k) as [u|]; [|exact I]. apply Hmax. exact I1.
-    - specialize (I1 j k). destruct (st K s j k) as [u|]; [|exact I]. apply Hmax. exact I1.
+    intros i k Hi. split; [intros v; apply Hmax, Hi|]. split; [apply I1|].
+    intros j Hj. apply ole_antisym.
+    - specialize (I1 i k). destruct (st K s i k) as [u|]; [|exact I]. apply Hmax; [exact Hj|exact I1].
+    - specialize (I1 j k). destruct (st K s j k) as [u|]; [|exact I]. apply Hmax; [exact Hi|exact I1].
   Qed.
 
   (* the winner is unique: two versions that are both maximal among the writes are equal (fixed, order-
@@ -85,14 +88,20 @@ Section P.
     P a -> P b -> (forall v, P v -> vle v a) -> (forall v, P v -> vle v b) -> a = b.
   Proof. intros Ha Hb Ma Mb. apply vle_antisym; [apply Mb, Ha|apply Ma, Hb]. Qed.
 
-  (* stores only grow: a key never moves backwards at any instance *)
-  Theorem stores_monotone s s' : fstep s s' -> forall i k, ole (st K s i k) (st K s' i k).
+  (* stores only grow: a key never moves backwards at any instance, except by the loss of that instance's LMDB
+     itself (a reset of THAT instance; Lightning Stream's own steps and the resets of others never do it) *)
+  Theorem stores_monotone s s' : fstep s s' ->
+    forall i, (forall k, ole (st K s i k) (st K s' i k)) \/
+              (exists g, s' = mkSys K (upd_inst K (st K s) i g) (snaps K s) (written K s)).
   Proof.
-    intros H i k. inversion H as [s0 j k0 v Hle|s0 j|s0 j x Hin]; subst; cbn [st].
-    - unfold upd_inst, upd. destruct (Nat.eq_dec j i) as [->|]; [|apply ole_refl].
+    intros H i. inversion H as [s0 j k0 v Hle|s0 j|s0 j x Hin|s0 j g Hg]; subst; cbn [st].
+    - left. intros k. unfold upd_inst, upd. destruct (Nat.eq_dec j i) as [->|]; [|apply ole_refl].
       destruct (K_eq_dec k0 k) as [->|]; [exact Hle|apply ole_refl].
-    - apply ole_refl.
-    - unfold upd_inst. destruct (Nat.eq_dec j i) as [->|]; [apply ole_join_l|apply ole_refl].
+    - left. intros k. apply ole_refl.
+    - left. intros k. unfold upd_inst. destruct (Nat.eq_dec j i) as [->|]; [apply ole_join_l|apply ole_refl].
+    - destruct (Nat.eq_dec j i) as [->|Hn].
+      + right. exists g. reflexivity.
+      + left. intros k. unfold upd_inst. destruct (Nat.eq_dec j i); [contradiction|apply ole_refl].
   Qed.
 End P.
 
